@@ -447,6 +447,120 @@ def e1d(fb, rep):
         rep.violation(R, "drop-does-not-unroot", "dropping a RootedValue no longer removes its root (leak) or the impl is gone", "")
 
 
+def e1e(fb, rep):
+    R = "E1e"
+    rep.rule(R, "mark/sweep core: what gets marked, traced, unmarked and freed")
+    G = "gluon_vm::gc::"
+    # Generation::is_parent_of(self, other) is strictly self < other
+    b = fb.body(G + "Generation::is_parent_of")
+    ok = False
+    if b is not None:
+        for i, j, pl, rv, ln in b.assigns():
+            if rv[0] == "bin" and pl == [0, []]:
+                sa, sb = flow.sources(b, rv[2]), flow.sources(b, rv[3])
+                pure = not any(s[0] in ("op", "const", "call") for s in sa | sb)
+                if pure and ((rv[1] == "Lt" and ("arg", 1) in sa and ("arg", 2) in sb) or (rv[1] == "Gt" and ("arg", 2) in sa and ("arg", 1) in sb)):
+                    ok = True
+    if ok:
+        rep.ok(R, "Generation::is_parent_of(self, other) is self < other (strict)")
+    else:
+        rep.violation(R, "is-parent-of", "Generation::is_parent_of is no longer the strict `self.0 < other.0`: same-generation objects would be skipped by mark (and then freed)", b.where() if b else "")
+    # Gc::mark: skip iff the object's generation is a parent of the collector's, or it is already marked; otherwise set the mark
+    m = fb.body(G + "Gc::mark")
+    if m is None:
+        rep.anchor_lost(R, "Gc::mark")
+    else:
+        ipo = [c for c in m.calls() if c.res == G + "Generation::is_parent_of"]
+        sets = [c for c in m.calls() if c.res.endswith("Cell::<T>::set") and ("field", G + "GcHeader", "marked") in flow.sources(m, c.args[0])]
+        gets = [c for c in m.calls() if c.res.endswith("Cell::<T>::get") and ("field", G + "GcHeader", "marked") in flow.sources(m, c.args[0])]
+        good = False
+        why = "shape"
+        if ipo and sets and gets:
+            a0 = flow.sources(m, ipo[0].args[0])
+            a1 = flow.sources(m, ipo[0].args[1])
+            order_ok = flow.has_call(a0, lambda n: n.endswith("GcHeader::generation")) and flow.has_call(a1, lambda n: n.endswith("Gc::generation")) \
+                and not flow.has_call(a0, lambda n: n.endswith("Gc::generation"))
+            # the set(true) block is reached only over the false edges of both tests
+            e1 = e2 = None
+            for bb, srcs, true_t, false_t in flow.bool_switches(m):
+                if flow.has_call(srcs, lambda n: n.endswith("is_parent_of")):
+                    e1 = (bb, false_t)
+                if flow.has_call(srcs, lambda n: n.endswith("Cell::<T>::get")):
+                    e2 = (bb, false_t)
+            setv = op_const_int(sets[0].args[1])
+            only = e1 and e2 and flow.only_via_edge(m, sets[0].bb, e1) and flow.only_via_edge(m, sets[0].bb, e2)
+            # return value: false (0) exactly on the path that sets the mark
+            ret0 = [i for i, j, pl, rv, ln in m.assigns() if pl == [0, []] and rv[0] == "use" and rv[1][0] == "k" and rv[1][1].get("int") == 0]
+            ret_ok = ret0 and all(m.dominates(sets[0].bb, i) for i in ret0)
+            good = bool(order_ok and only and setv == 1 and ret_ok)
+            why = "arg-order=%s only-unmarked-young=%s sets-true=%s returns-false-only-there=%s" % (order_ok, bool(only), setv == 1, bool(ret_ok))
+        if good:
+            rep.ok(R, "Gc::mark: object of an ancestor generation or already marked -> true; otherwise marked.set(true) and false")
+        else:
+            rep.violation(R, "mark-shape", "Gc::mark no longer marks exactly the unmarked objects of this or a younger generation (%s)" % why, m.where())
+    # GcPtr::trace: the pointee is traced exactly when mark() returned false
+    g = fb.body("<gluon_vm::gc::GcPtr<T> as gluon_vm::gc::Trace>::trace")
+    if g is None:
+        rep.anchor_lost(R, "<GcPtr as Trace>::trace")
+    else:
+        mk = [c for c in g.calls() if c.res == G + "Gc::mark"]
+        tr = [c for c in g.calls() if c.fn == TRACE + "::trace"]
+        good = False
+        if mk and tr:
+            for bb, srcs, true_t, false_t in flow.bool_switches(g):
+                if flow.has_call(srcs, lambda n: n.endswith("Gc::mark")):
+                    negated = ("op", "Not") in srcs
+                    unmarked_edge = true_t if negated else false_t
+                    if all(flow.only_via_edge(g, c.bb, (bb, unmarked_edge)) for c in tr):
+                        good = True
+        if good:
+            rep.ok(R, "<GcPtr as Trace>::trace: the pointee is traced iff Gc::mark reported it was not marked before")
+        else:
+            rep.violation(R, "gcptr-trace-shape", "<GcPtr as Trace>::trace does not trace the pointee exactly on the newly-marked edge", g.where())
+    # Gc::sweep: unmarked -> free, marked -> mark cleared
+    s = fb.body(G + "Gc::sweep")
+    if s is None:
+        rep.anchor_lost(R, "Gc::sweep")
+    else:
+        fr = [c for c in s.calls() if c.res == G + "Gc::free"]
+        clr = [c for c in s.calls() if c.res.endswith("Cell::<T>::set") and op_const_int(c.args[1]) == 0]
+        get = [c for c in s.calls() if c.res.endswith("Cell::<T>::get")]
+        loops = s.sccs()
+        in_loop = lambda c: any(c.bb in comp for comp in loops)
+        good = False
+        if fr and clr and get and all(in_loop(c) for c in fr + clr + get):
+            for bb, srcs, true_t, false_t in flow.bool_switches(s):
+                if flow.has_call(srcs, lambda n: n.endswith("Cell::<T>::get")):
+                    negated = ("op", "Not") in srcs
+                    marked_edge = false_t if negated else true_t
+                    unmarked_edge = true_t if negated else false_t
+                    if all(flow.only_via_edge(s, c.bb, (bb, marked_edge)) for c in clr) and \
+                            all(flow.only_via_edge_threaded(s, c.bb, (bb, unmarked_edge)) for c in fr):
+                        good = True
+        if good:
+            rep.ok(R, "Gc::sweep: marked -> marked.set(false) and keep; unmarked -> Gc::free")
+        else:
+            rep.violation(R, "sweep-shape", "Gc::sweep no longer frees exactly the unmarked blocks and clears the mark of the others", s.where())
+    # check_collect / collect trigger reads allocated_memory against collect_limit
+    cc = fb.body(G + "Gc::check_collect")
+    if cc is not None:
+        good = False
+        for bb, op, lhs, rhs, true_t, false_t in flow.comparison_switches(cc):
+            ls, rs = flow.sources(cc, lhs), flow.sources(cc, rhs)
+            if ("field", G + "Gc", "allocated_memory") in ls | rs and ("field", G + "Gc", "collect_limit") in ls | rs:
+                good = True
+        if good:
+            rep.ok(R, "Gc::check_collect compares allocated_memory with collect_limit")
+        else:
+            rep.violation(R, "collect-trigger", "Gc::check_collect no longer compares allocated_memory with collect_limit", cc.where())
+
+
+def op_const_int(o):
+    if o and o[0] == "k" and isinstance(o[1], dict):
+        return o[1].get("int")
+    return None
+
+
 def run(fb, rep, tier, cfg):
     rep.explanation = (
         "Static analysis of the resolved MIR/ADT/impl tables of the workspace. E1a: for each of the impls of gc::Trace, "
@@ -465,5 +579,6 @@ def run(fb, rep, tier, cfg):
     e1b(fb, rep)
     e1c(fb, rep)
     e1d(fb, rep)
+    e1e(fb, rep)
     from . import e4
     e4.cells(fb, rep)
